@@ -139,6 +139,37 @@ inline void microAlphabets(Ctx& C, int len, uint64_t& dontCare, std::map<std::st
   }
 }
 
+// number tokens around the documented 63-character limit (and well beyond), in every position a value can take
+inline void longNumbers(Ctx& C, uint64_t& dontCare, std::map<std::string, uint64_t>& zones, uint64_t& total) {
+  std::string cfg = cfgTag();
+  std::vector<size_t> lens;
+  for (size_t n = 58; n <= 70; n++) lens.push_back(n);
+  for (size_t n : {size_t(126), size_t(127), size_t(128), size_t(129), size_t(255), size_t(256), size_t(257), size_t(1000)}) lens.push_back(n);
+  for (size_t n : lens) {
+    for (int shape = 0; shape < 5; shape++) {
+      std::string num;
+      switch (shape) {
+        case 0: num = std::string(n, '1'); break;                                   // digits only
+        case 1: num = "0." + std::string(n - 3, '0') + "1"; break;                  // long fraction
+        case 2: num = "-" + std::string(n - 5, '7') + "e-10"; break;                // sign and exponent
+        case 3: num = std::string(n - 2, '9') + ".5"; break;
+        default: num = "1" + std::string(n - 1, '0'); break;
+      }
+      for (const char* ctx : {"%s", "[%s]", "[1,%s]", "{\"a\":%s}", " %s ", "[[%s]]"}) {
+        if (!C.take()) continue;
+        std::string text = ctx;
+        text.replace(text.find("%s"), 2, num);
+        C.begin("in:json:longnum|len=" + std::to_string(n) + "|shape=" + std::to_string(shape) + "|ctx=" + ctx + "|cfg=" + cfg);
+        total++;
+        uint64_t before = dontCare;
+        judge(C, text, 10, dontCare, zones);
+        if (dontCare == before) C.nontrivial();
+        C.end();
+      }
+    }
+  }
+}
+
 inline void run(Ctx& C) {
   int nFull = atoi(C.opt("full", "3").c_str()), nCore = atoi(C.opt("core", "5").c_str());
   uint64_t dontCare = 0, total = 0;
@@ -148,6 +179,7 @@ inline void run(Ctx& C) {
   enumerate(C, core, nCore, "core", dontCare, zones, total);
   int nMicro = atoi(C.opt("micro", "6").c_str());
   microAlphabets(C, nMicro, dontCare, zones, total);
+  longNumbers(C, dontCare, zones, total);
   C.metrics["sequences"] += double(total);
   C.metrics["dontcare_verdicts"] += double(dontCare);
   for (auto& kv : zones) C.metrics["zone:" + kv.first] += double(kv.second);
